@@ -71,8 +71,9 @@ func stageBodyTable(c *an.Ctx, s *sched, rule string) {
 
 func stageBodyTableFor(c *an.Ctx, s *sched, rule string, rc *ssa.Call, suffix string) {
 	body := s.body
+	var cur *an.State // the path state of the callback in progress (identity through inlined helpers)
 	who := func(v ssa.Value) string {
-		if s.bodyStage != nil && an.SameValue(v, s.bodyStage) {
+		if s.bodyStage != nil && (an.SameValue(v, s.bodyStage) || (cur != nil && cur.SameRoot(v, s.bodyStage)) || s.isBodyStage(v, cur)) {
 			return "stage"
 		}
 		return "other:" + an.Prov(v)
@@ -84,10 +85,13 @@ func stageBodyTableFor(c *an.Ctx, s *sched, rule string, rc *ssa.Call, suffix st
 			if errNil && af {
 				// same row as err=nil/af=false as far as the oracle goes, still explored
 			}
-			ex := &an.Explorer{P: c.P, NoReturn: noReturn, MaxDepth: 2,
-				Inline: func(f *ssa.Function) bool { return f.Parent() == body },
+			ex := &an.Explorer{P: c.P, NoReturn: noReturn, MaxDepth: 3,
+				Inline: func(f *ssa.Function) bool {
+					return f.Parent() == body || (an.Outer(f).Pkg == s.schedule.Pkg && f != s.schedule && f != s.runStage && an.Outer(f) != an.Outer(body))
+				},
 			}
-			ex.Atom = func(v ssa.Value) (an.AVal, bool) {
+			ex.AtomSt = func(v ssa.Value, st *an.State) (an.AVal, bool) {
+				cur = st
 				if v == ssa.Value(rc) {
 					if errNil {
 						return an.AVal{K: an.ANil}, true
@@ -102,11 +106,12 @@ func stageBodyTableFor(c *an.Ctx, s *sched, rule string, rc *ssa.Call, suffix st
 				return an.AVal{}, false
 			}
 			ex.Effect = func(in ssa.Instruction, st *an.State) string {
+				cur = st
 				if e := s.updateStatusEffect(in, st, who); e != "" {
 					return e
 				}
 				if sto, ok := in.(*ssa.Store); ok && isGraphErrorAddr(sto.Addr) {
-					if an.SameValue(sto.Val, rc) {
+					if an.SameValue(sto.Val, rc) || st.Root(sto.Val) == ssa.Value(rc) {
 						return "grapherror:=err"
 					}
 					for _, src := range an.Sources(sto.Val) {
@@ -215,6 +220,11 @@ func errorReport(c *an.Ctx, s *sched, rule string) {
 					inBody = true
 				}
 			}
+			if !inBody {
+				// a helper that only the stage goroutine calls
+				loopSide, bodySide := schedSides(c, s)
+				inBody = bodySide[fn] && !loopSide[fn]
+			}
 			c.Check(inBody, rule, an.Short(fn)+":write(graph.error)", sto.Pos(), "the run's error is written by the stage goroutine", "the run's error is written outside the stage goroutine")
 		})
 	}
@@ -282,7 +292,7 @@ func errorReport(c *an.Ctx, s *sched, rule string) {
 					}
 					return false
 				}
-				recorded = append(recorded, c.P.DeepSourcesStop(st.Val, 3, false, stop)...)
+				recorded = append(recorded, c.P.DeepSourcesStop(st.Val, 3, true, stop)...)
 			}
 		})
 	}
